@@ -6,6 +6,9 @@ CHECKS = {
     "C04": ("worlds.w1_engine", "get_check"),
     "C05": ("worlds.w1_specs", "get_check"),
     "C07": ("worlds.w4_filters", "get_check"),
+    "C08": ("worlds.w3_cleaner", "get_check"),
+    "C09": ("worlds.w3_cleaner", "get_check"),
+    "C10": ("worlds.w3_cleaner", "get_check"),
     "C12": ("worlds.w1_rules", "get_check"),
     "C17": ("worlds.w5_clientstate", "get_check"),
 }
